@@ -9,7 +9,7 @@ namespace Flute.Sched
 
 /-- the expiry test of `current_fdt_will_expire` on the time since the last publication -/
 def Expired (cfg : Cfg) (lastPublish : Option Nat) (now : Nat) : Prop :=
-  ∀ lp, lastPublish = some lp →
+  ∀ lp, lastPublish = some lp → lp ≠ now ∧
     (if cfg.fdtDuration > 30000000000 then decide (cfg.fdtDuration - 5000000000 < now - lp)
      else if cfg.fdtDuration > 10000000000 then decide (cfg.fdtDuration - 1000000000 < now - lp)
      else decide (cfg.fdtDuration ≤ now - lp)) = true
@@ -20,7 +20,7 @@ theorem willExpire_of_expired {s : State} (now : Nat) (h : Expired s.cfg s.lastP
   rw [hq]
   simp only [List.isEmpty_nil, Bool.not_true, Bool.false_eq_true, if_false]
   split
-  · rename_i k lp hk hlp; exact h lp hlp
+  · rename_i k lp hk hlp; rw [if_neg (h lp hlp).1]; exact (h lp hlp).2
   · rfl
 
 theorem transferDoneFdt_lastPublish (s : State) (k now : Nat) : (transferDoneFdt s k now).lastPublish = s.lastPublish := by
@@ -102,5 +102,28 @@ theorem read_expired (cfg : Cfg) (tbl : List Nat) (ops : List Op) (hfit : cfg.fd
   simp only [] at he
   subst he
   exact ⟨k, id, i, rfl⟩
+
+/-- in every reachable state: while the FDT session holds an unfinished transfer, a poll returns its next packet -/
+theorem read_fdt_busy (cfg : Cfg) (tbl : List Nat) (ops : List Op) (now : Nat) (ticks : List (Nat × Nat))
+    (c : Cur) (f : FileDesc) (hs : (run (init cfg tbl) ops).fdtSess = some c)
+    (hf : getF (run (init cfg tbl) ops).fdts c.key = some f) (hlt : c.enc.sent < f.nPk) :
+    ∃ k id i, (read (run (init cfg tbl) ops) now ticks).2 = Out.fdt k id i := by
+  have hw := wf_run cfg tbl ops
+  generalize run (init cfg tbl) ops = s at hw hs hf
+  obtain ⟨_, hst, f0, hf0, _, _⟩ := hw.fdtSessSome c hs
+  rw [hf] at hf0; cases hf0
+  have hsh := (hw.fdtKeys f (getF_mem hf)).2
+  unfold read
+  have e : runFuel = 3 + 1 := rfl
+  rw [e]
+  have hs' : (emit s (.opRead now)).fdtSess = some c := hs
+  have hf' : getF (emit s (.opRead now)).fdts c.key = some f := hf
+  unfold runFdt
+  simp only [hs', hf', gate_of_shape hsh now, Bool.false_eq_true, if_false]
+  rw [encRead_eq]
+  have hst' : ¬ c.enc.stopped = true := by rw [hst]; simp
+  have hlt' : c.enc.sent < (if f.nSym = 0 then 1 else f.nSym) := hlt
+  rw [if_neg hst', if_pos hlt']
+  exact ⟨_, _, _, rfl⟩
 
 end Flute.Sched
